@@ -618,6 +618,9 @@ func (w *c15World) clientClose(cl *c15Client, abort bool) {
 func (w *c15World) action() {
 	t, c := w.c.T, w.c
 	act := t.Pick([]int{4, 8, 3, 1, 1, 4, 4, 1, 1}, "act")
+	if act == 0 && w.closing && !t.Bias(1, 4, "dial-closed") {
+		act = 6 // the listener is closed: let time pass instead
+	}
 	switch act {
 	case 0:
 		w.dial()
@@ -637,15 +640,17 @@ func (w *c15World) action() {
 		}
 		w.clientWrite(open[t.Choose(len(open), "who")])
 	case 2: // GetConnByUfrag
-		if w.closing {
-			return
-		}
 		uf := c15Ufrags[t.Pick([]int{3, 2, 1}, "ufrag")]
 		plane := 0
 		if t.Bias(1, 6, "v6") {
 			plane = 1
 		}
 		conn, err := w.mux.GetConnByUfrag(uf, plane == 1, w.lips[plane])
+		if w.closing && err != nil {
+			c.Logf("GetConnByUfrag(%s) refused: the mux is closed", uf)
+			c.Probe("getconn-after-close-refused")
+			return
+		}
 		if err != nil {
 			c.Failf("C15/getconn-failed", "GetConnByUfrag(%s) on an open mux: %v", uf, err)
 			return
